@@ -15,6 +15,7 @@ import (
 func init() {
 	rt.Register("C13_truncate_index", VerifHarness_C13_truncate_index)
 	rt.Register("C13_truncate_volume", VerifHarness_C13_truncate_volume)
+	rt.Register("C13_big_truncate", VerifHarness_C13_big_truncate)
 	rt.Register("C13_truncate_data", VerifHarness_C13_truncate_data)
 	rt.Register("C13_corrupt_byte", VerifHarness_C13_corrupt_byte)
 	rt.Register("C13_delete_subset", VerifHarness_C13_delete_subset)
@@ -58,6 +59,27 @@ func VerifHarness_C13_truncate_index() {
 	if rt.Bool("damageData") {
 		s.fs.remove(s.paths[0])
 	}
+	robustOps(s, true)
+}
+
+// A protected file longer than 16 KiB (so that the 16k hash covers a proper
+// prefix), slice size 8192, cut at lengths around the prefix boundary and the
+// slice boundaries.
+func VerifHarness_C13_big_truncate() {
+	useFileIDLessSpec()
+	const n = 16388
+	data := make([]byte, n)
+	for i := range data {
+		data[i] = byte(i*7 + i/251 + 1)
+	}
+	s := &scenario{fs: newSymFS(), parity: 1}
+	s.orig = [][]byte{data}
+	s.paths = []string{fileName(0)}
+	s.fs.put(fileName(0), append([]byte(nil), data...))
+	err := create(s.fs, scnIndex, s.paths, CreateOptions{SliceByteCount: 8192, NumParityShards: 1, NumGoroutines: 1})
+	rt.Assert(err == nil, "Create succeeds on the scenario")
+	cut := []int{0, 1, 8191, 8192, 16383, 16384, 16385, 16387}[rt.Choice("cut", 8)]
+	s.fs.put(fileName(0), append([]byte(nil), data[:cut]...))
 	robustOps(s, true)
 }
 
